@@ -560,18 +560,28 @@ def main(run):
     # denormals, and mixed scales.  The order type is what the statement quantifies over; the Coq models work on integers,
     # which cannot represent the rounding / overflow of the float mean in `median`, so these populations are judged by the
     # peeling oracle alone (both procedures, every k, both flags).  Witness of the repaired defect ba2fc87 runs first.
-    def extreme_case(w, vals, ks=None):
+    int_classes = {}
+
+    def extreme_case(w, vals, ks=None, ints=False):
         n = len(vals)
-        C = fitcls(w)
+        if ints:        # integer weights and integer values: the weighted values stay exact Python integers
+            key_ = tuple(int(x) for x in w)
+            if key_ not in int_classes:
+                int_classes[key_] = type("FI%d" % len(int_classes), (base.Fitness,), {"weights": key_})
+            C = int_classes[key_]
+        else:
+            C = fitcls(w)
         pop = []
         for v in vals:
             x = Ind(v)
             x.fitness = C()
-            x.fitness.values = tuple(float(t) for t in v)
+            x.fitness.values = tuple(int(t) for t in v) if ints else tuple(float(t) for t in v)
             pop.append(x)
         idmap = {id(x): i for i, x in enumerate(pop)}
         ws = [tuple(x.fitness.wvalues) for x in pop]
-        base_case = {"kind": "sort-extreme", "weights": list(w), "values": [[float(t).hex() for t in v] for v in vals]}
+        base_case = {"kind": "sort-extreme", "weights": list(w),
+                     "values": [[str(int(t)) for t in v] for v in vals] if ints else [[float(t).hex() for t in v] for v in vals],
+                     "integer_weights_and_values": bool(ints)}
         run.note_case(base_case, n >= 2)
         run.extra_cov["extreme_magnitude_populations"] = run.extra_cov.get("extreme_magnitude_populations", 0) + 1
         for k in (ks if ks is not None else sorted({0, 1, max(1, n // 2), n, n + 1})):
@@ -610,6 +620,18 @@ def main(run):
         small = rng.sample(pool, min(len(pool), rng.randint(2, 4)))
         vals = [tuple(rng.choice(small) for _ in range(m)) for _ in range(n)]
         extreme_case(tuple(rng.choice([-1.0, 1.0]) for _ in range(m)), vals)
+
+    # integers beyond 2**53 with integer weights: the float mean of the two middle values rounds outside them
+    # (witness of the repaired defect: five objectives with values 2**60 .. 2**60+4)
+    extreme_case((1, 1, 1, 1, 1), [(2 ** 60 + a, 2 ** 60 + b, 2 ** 60 + c, 2 ** 60 + d, 2 ** 60 + e) for a, b, c, d, e in
+                                   ((0, 4, 1, 3, 2), (4, 0, 3, 1, 2), (1, 3, 0, 4, 2), (3, 1, 4, 0, 2), (2, 2, 2, 2, 0), (2, 2, 2, 2, 4),
+                                    (1, 1, 3, 3, 1), (3, 3, 1, 1, 3))], ints=True)
+    for _ in range(run.scale(40, 400)):
+        m = rng.choice([3, 4, 5])
+        n = rng.randint(4, 12)
+        off = rng.choice([2 ** 60, 2 ** 53, -(2 ** 62), 2 ** 70])
+        vals = [tuple(off + rng.randint(0, 4) for _ in range(m)) for _ in range(n)]
+        extreme_case(tuple(rng.choice([1, -1]) for _ in range(m)), vals, ints=True)
 
     t_gen = time.time()
     run.correspond("all", "C04", terms, cases, shard=run.scale(300, 400))
